@@ -314,8 +314,28 @@ fn check_big(c: &Big) -> Result<(), String> {
 }
 
 pub fn run(ctx: &mut Ctx) {
-    ctx.rule("history = base x 0..R rounds of {new_append; 0..3 new entries of any kind/method incl. extra data, aligned, ZipCrypto; optional raw copies from another archive before or after them; optional comment change; finish or drop}. Bases: archives from this writer (C01 programs) and from the independent builder (data descriptors, forced ZIP64 fields and end records, junk prefix, CP437 names, DOS attributes, file comments, unsupported methods, shuffled central order, gaps) and from CPython zipfile (driver cpython_bases: seekable/unseekable sinks i.e. data descriptors, force_zip64, prepended data, cp437/UTF-8 names, DOS/Unix systems). After every round the crate reader and the independent (lenient) parser must see model = previous entries (name, content, method, timestamp, unix mode) followed by the new ones, and the archive comment unless replaced. big_bases: crate-written bases of 65534/65535 (thorough: 65533..70000) entries, bare or behind 777 prepended bytes (offsets relative to the archive start), x append rounds {[0],[1],[2,0],[1,1,1]} crossing the 16-bit entry-count limit. Non-trivial = foreign base, or >=2 rounds with at least one non-empty round.");
+    ctx.rule("history = base x 0..R rounds of {new_append; 0..3 new entries of any kind/method incl. extra data, aligned, ZipCrypto; optional raw copies from another archive before or after them; optional comment change; finish or drop}. Bases: archives from this writer (C01 programs) and from the independent builder (data descriptors, forced ZIP64 fields and end records, junk prefix, CP437 names, DOS attributes, file comments, unsupported methods, shuffled central order, gaps) and from CPython zipfile (driver cpython_bases: seekable/unseekable sinks i.e. data descriptors, force_zip64, prepended data, cp437/UTF-8 names, DOS/Unix systems). After every round the crate reader and the independent (lenient) parser must see model = previous entries (name, content, method, timestamp, unix mode) followed by the new ones, and the archive comment unless replaced. big_bases: crate-written bases of 65534/65535 (thorough: 65533..70000) entries, bare or behind 777 prepended bytes (offsets relative to the archive start), x append rounds {[0],[1],[2,0],[1,1,1]} crossing the 16-bit entry-count limit. large_bases: hand-laid-out sparse foreign bases whose entries / header offsets lie beyond 4 GiB, bare and behind prepended data (archive-relative offsets), one append round, sizes / offsets / CRC of every old entry recovered by the independent parser and the reader. Non-trivial = foreign base, or >=2 rounds with at least one non-empty round.");
     ctx.assume("file comments and extra fields of existing entries are not part of the claim (the property lists order, names, contents, methods, timestamps, modes, archive comment)");
+    // hand-laid-out foreign bases with entries / header offsets beyond 4 GiB (sparse), bare and behind
+    // prepended data with archive-relative offsets: one append round, every old value must survive
+    #[derive(Clone, Debug, Serialize, Deserialize, Hash)]
+    struct LargeBase {
+        sizes: Vec<(u64, u64)>,
+        prefix: u64,
+    }
+    const G: u64 = 1 << 32;
+    let lb: Vec<LargeBase> = ctx.q(
+        vec![LargeBase { sizes: vec![(G + 5, G + 5), (9, 9), (300, 300)], prefix: 555 }],
+        vec![LargeBase { sizes: vec![(G + 5, G + 5), (9, 9), (300, 300)], prefix: 555 }, LargeBase { sizes: vec![(G + 5, G + 5), (9, 9)], prefix: 0 }, LargeBase { sizes: vec![(G - 600, G - 600), (1, 1), (2, 2)], prefix: 600 }, LargeBase { sizes: vec![(3, 3), (6 << 30, 5 << 30), (4, 4)], prefix: 65536 }],
+    );
+    ctx.enumerate::<LargeBase>("large_bases", lb.len() as u64, &|i| lb[i as usize].clone(), &|b: &LargeBase, info: &mut Info| {
+        info.nontrivial = true;
+        info.label_if(b.prefix > 0, "base:prefixed");
+        match catch(|| super::c08::check_append_large_p(&b.sizes, b.prefix)) {
+            Ok(r) => Verdict::from_result(r),
+            Err(p) => Verdict::Fail(format!("PANIC: {p}")),
+        }
+    });
     // entry counts around 65535/65536, with and without prepended data
     let bases: Vec<u32> = ctx.q(vec![65534, 65535], vec![65533, 65534, 65535, 65536, 70000]);
     let round_sets: Vec<Vec<u8>> = vec![vec![0], vec![1], vec![2, 0], vec![1, 1, 1]];
